@@ -2,4 +2,4 @@ From UV Require Import Lib.Base Model.IoWatch.
 Require Extraction.
 Require Import ExtrOcamlBasic.
 Extraction Language OCaml.
-Extraction "m_c14.ml" sinit run watched kernel_set N.add.
+Extraction "m_c14.ml" sinit run watched kernel_set mask_of_uv uv_of_mask mask_of_poll poll_of_mask N.add.
